@@ -7,6 +7,7 @@ import gossip as G
 import vp
 
 REGISTRY = {}
+REPLAYERS = {}
 
 
 def prop(pid):
@@ -21,6 +22,11 @@ def replay(chk, path):
     kind = obj.get("kind")
     if kind == "gossip-trace":
         return replay_gossip(chk, obj)
+    if kind == "ueng-trace":
+        import checks_upstreams
+        return checks_upstreams.replay_u(chk, obj)
+    if kind in REPLAYERS:
+        return REPLAYERS[kind](chk, obj)
     raise vp.Machinery("unknown replay kind %r" % kind)
 
 
@@ -49,6 +55,9 @@ def _geng_checks(chk, stats, what):
 def run_schedules(chk, sched, label, nodes, invariants=None, module="TraceG", extra_consts=None,
                   post=None):
     """schedules -> real code -> trace validation; returns (verdict, stats)."""
+    extra_consts = dict(extra_consts or {})
+    if sched.get("maxSlots"):
+        extra_consts["MaxSlots"] = sched["maxSlots"]
     with vp.Scratch("g-" + label) as d:
         tp, stats = G.run_geng(d, sched, chk.seed, name=label)
         _geng_checks(chk, stats, label)
@@ -229,16 +238,16 @@ def gossip_family(chk, mc_inv, mc_props, trace_inv, require_ops=(), module="Goss
         beh, info = G.gen_cover(chk, "%s-cover%d" % (label, i), cc, module=module, spec=spec, view="ViewCover")
         covers.append(info)
         chk.exhaustive = chk.exhaustive and info["uncovered_edges"] == 0
-        v, st = run_schedules(chk, dict(sched_base(nodes), behaviours=beh), "cover%d" % i, nodes,
-                              invariants=trace_inv, module=tmodule)
+        v, st = run_schedules(chk, dict(sched_base(nodes), behaviours=beh, maxSlots=cc["MaxSlots"]),
+                              "cover%d" % i, nodes, invariants=trace_inv, module=tmodule)
         account(st)
     chk.notes["covers"] = covers
     sc, num, depth = plan["sim"]
     sc = dict(sc, **xc)
     nodes3 = sorted(sc["Node"])
     beh = G.gen_sim(chk, label + "-sim", sc, num, depth, chk.seed, module=module, spec=spec)
-    v, st = run_schedules(chk, dict(sched_base(nodes3), behaviours=beh), "sim", nodes3, invariants=trace_inv,
-                          module=tmodule)
+    v, st = run_schedules(chk, dict(sched_base(nodes3), behaviours=beh, maxSlots=sc["MaxSlots"]), "sim", nodes3,
+                          invariants=trace_inv, module=tmodule)
     account(st)
     walks, wdepth = plan["walks"]
     sched = dict(sched_base(["a", "b", "c", "d"]), walks=walks, depth=wdepth,
@@ -345,3 +354,7 @@ def c14(chk):
 
 
 import checks_routing  # noqa: E402,F401
+import checks_membership  # noqa: E402,F401
+import checks_packet  # noqa: E402,F401
+import checks_converge  # noqa: E402,F401
+import checks_upstreams  # noqa: E402,F401
